@@ -156,6 +156,7 @@ def routes_list(
                     )
 
             await reactor.processes.answer(service, routes_data)
+            await reactor.processes.answer_done(service)
         except Exception as e:
             error_msg = f'Failed to list routes: {type(e).__name__}: {str(e)}'
             self.log_exception(error_msg, e)
@@ -235,6 +236,7 @@ def routes_add(
                 await reactor.processes.answer(service, results[0])
             else:
                 await reactor.processes.answer(service, results)
+            await reactor.processes.answer_done(service)
 
         except ValueError as e:
             error_msg = f'Failed to parse route: {str(e)}'
@@ -297,6 +299,7 @@ def routes_remove(
                         'index': index_hex,
                     },
                 )
+                await reactor.processes.answer_done(service)
                 return
 
             # Remove by route specification
@@ -331,6 +334,7 @@ def routes_remove(
                 await reactor.processes.answer(service, results[0])
             else:
                 await reactor.processes.answer(service, results)
+            await reactor.processes.answer_done(service)
 
         except ValueError as e:
             error_msg = f'Failed to parse route: {str(e)}'
